@@ -426,6 +426,8 @@ def check(ix, rep):
     from sa.rules import units
     nf = units.check_forwarding_calls(ix, rep, lambda name: 'sampling' in name)
     rep.floor('forwarding calls of the sampling settings', nf, 2)
+    nr = units.check_forwarding_reach(ix, rep)
+    rep.floor('interpreters a setting has to reach', nr, 2)
     # reset restarts the counter (shared with C10)
     rs = [f for f in (ix.resolve_method(on.cls, 'reset'),) if f]
     src = ast.unparse(rs[0].node).replace(' ', '') if rs else ''
